@@ -253,6 +253,23 @@ func registerHarnessIntrinsics(m map[string]intrinsic) {
 		op := &syncOp{desc: "vYield", free: true, ready: func() bool { return true }, exec: func() { fin(nil) }}
 		w.syncPoint(g, op, true)
 	})
+	h("vQuiesce", func(w *World, g *G, a []Value, fin func(Value)) {
+		// blocks until no other goroutine can make progress (the environment waits for the
+		// system under test to finish what it is doing)
+		op := &syncOp{desc: "vQuiesce", quiesce: true, exec: func() { fin(nil) }}
+		op.ready = func() bool {
+			for _, x := range w.gs {
+				if x == g || x.done || x.pend == nil || x.pend.quiesce {
+					continue
+				}
+				if x.pend.ready() {
+					return false
+				}
+			}
+			return true
+		}
+		w.syncPoint(g, op, true)
+	})
 	h("vDaemon", func(w *World, g *G, a []Value, fin func(Value)) {
 		g.daemon = true
 		fin(nil)
